@@ -139,8 +139,17 @@ fn check_reset(fmt: u8, ff: usize, lead_words: usize) -> Option<(String, String)
     let mut lc = LinkCfg::ib(0, 0);
     lc.data_format = fmt;
     let conforming = grammar::render_link(&lc, &[grammar::basic_hbf_shapes(&lc)[0].1.clone()]);
-    // leave the FSM in a non-initial state: a page holding only the first `lead_words` words of a conforming page
-    let lead: Vec<[u8; 10]> = conforming[0].words.iter().take(lead_words).map(|w| w.bytes).collect();
+    // leave the FSM in a non-initial state: a page holding only a prefix of a conforming page. Lead-ins 1..: the
+    // prefixes of "IHW TDH data data data TDT(done)", then the prefixes of "IHW TDH(no data) TDH data data data
+    // TDT(packet_done = 0)" - the last one leaves the FSM waiting for a continuation page
+    let open_page = grammar::render_link(&lc, &[grammar::basic_hbf_shapes(&lc)[7].1.clone()]);
+    let mut leadins: Vec<Vec<[u8; 10]>> = Vec::new();
+    for page in [&conforming[0], &open_page[0]] {
+        for n in 1..=page.words.len() {
+            leadins.push(page.words.iter().take(n).map(|w| w.bytes).collect());
+        }
+    }
+    let lead: Vec<[u8; 10]> = leadins[(lead_words - 1) % leadins.len()].clone();
     let lead_payload = payload::pack(&lead, fmt);
     let (tx, rx) = flume::unbounded();
     let r = val::guarded(|| {
@@ -327,7 +336,7 @@ pub fn run(tier: Tier) -> i32 {
     let mut rcases = Vec::new();
     for fmt in [0u8, 2] {
         for ff in [16usize, 17, 25, 40] {
-            for lead in [1usize, 2, 3] {
+            for lead in 1..=14usize {
                 rcases.push((fmt, ff, lead));
             }
         }
@@ -360,7 +369,7 @@ pub fn run(tier: Tier) -> i32 {
     rep.cov("evaluations", json!(cases.len() + vcases.len() + rcases.len() + wcases.len()));
     rep.cov("distinct_nontrivial", json!(nontrivial));
     rep.cov("exhaustive", json!(true));
-    rep.cov("rule", json!("formats {0,2} x word counts {0..=12, 511, 512, 700 (quick) / every count 0..=700 (thorough)} x 0..=40 trailing 0xFF bytes through preprocess_payload and (x 2 modes) through a real LinkValidator with individually recognisable faulty words; all 63 proper subsets of zero bytes among the first six bytes of the second word of a format-2 payload (must not be taken for format 0); reset after the padding error for 16/17/25/40 bytes x 3 lead-in states x 2 formats; the two readout-frame views through the real CLI for word counts {2,3,8..11,16} (quick) / {2..=40,511,512,700} (thorough) x 0..=15 padding bytes x 2 formats, every printed row compared with the model's decode. non-trivial = at least one padding byte present"));
+    rep.cov("rule", json!("formats {0,2} x word counts {0..=12, 511, 512, 700 (quick) / every count 0..=700 (thorough)} x 0..=40 trailing 0xFF bytes through preprocess_payload and (x 2 modes) through a real LinkValidator with individually recognisable faulty words; all 63 proper subsets of zero bytes among the first six bytes of the second word of a format-2 payload (must not be taken for format 0); reset after the padding error for 16/17/25/40 bytes x 14 lead-in states (every prefix of a complete page and of a page that ends with TDT packet_done = 0) x 2 formats; the two readout-frame views through the real CLI for word counts {2,3,8..11,16} (quick) / {2..=40,511,512,700} (thorough) x 0..=15 padding bytes x 2 formats, every printed row compared with the model's decode. non-trivial = at least one padding byte present"));
     rep.sample(json!({"fmt": 2, "words": 3, "ff": 10, "payload_hex": hex(&build_payload(2, 3, 10))}));
     rep.sample(json!({"fmt": 0, "words": 2, "ff": 16, "expect": "one 'Payload error following RDH', no word examined, FSM reset"}));
     rep.assume("word contents do not imitate the other format's padding (a format-2 payload whose bytes 10..15 are all zero is the separate row of C02/known findings)");
